@@ -8,7 +8,7 @@ from fractions import Fraction
 
 import numpy as np
 
-from harness.common import CheckRun, bl, listl, ql, setup_jax, to_frac
+from harness.common import run_main, bl, listl, ql, setup_jax, to_frac
 
 jax = setup_jax(x64=True)
 import equinox as eqx  # noqa: E402
@@ -51,8 +51,7 @@ def case_lit(g, l, last, rows, adv, ret):
             f"{listl(ql(a) for a in adv)} {listl(ql(a) for a in ret)}")
 
 
-def main():
-    ck = CheckRun("C03")
+def body(ck):
     ck.rule = ("random rollouts: T in 1..24 (quick) / 1..40 (thorough), gamma/lambda on the dyadic grid {0,1/4,1/2,3/4,1}, rewards k/4, "
                "values k/2, done rate in {0,.1,.3,.6}; thorough adds all 2^T done patterns for T<=10; "
                "a case is non-trivial when a done lies strictly inside the rollout and a non-zero reward follows it; distinct by (T, done pattern, gamma, lambda)")
@@ -158,8 +157,7 @@ def main():
     res = ck.run_coq_cases("C03Check", cases)
     ck.classify(res, cj, relation="gaeQ (rollout.py:63-92) vs implementation advantages/returns",
                 what="advantages/returns differ from the GAE recursion")
-    ck.finish()
 
 
 if __name__ == "__main__":
-    main()
+    run_main("C03", body)
